@@ -584,6 +584,23 @@ func c10Work(c *engine.Ctx) {
 		}
 	})
 	c.Count("min:level_bytes", int64(lvl))
+	// nesting as deep as encoding/json accepts it (10000 containers)
+	kk := 0
+	for _, n := range []int{100, 1000, 5000, 9998, 9999, 10000} {
+		for _, d := range [][3]string{{"[", "", "]"}, {"{\"a\":", "1", "}"}, {"[{\"k\":", "null", "}]"}, {"[1,", "[]", "]"}} {
+			kk++
+			if !c.Mine(kk) {
+				continue
+			}
+			per := strings.Count(d[0], "[") + strings.Count(d[0], "{")
+			m := n / per
+			if strings.Contains(d[1], "[") {
+				m = n - 1
+			}
+			exec([]byte(strings.Repeat(d[0], m) + d[1] + strings.Repeat(d[2], m)))
+			c.Count("deep-documents", 1)
+		}
+	}
 	for _, seed := range seedsJSON {
 		c.EditBall([]byte(seed), alphaJSON, func(in []byte) { exec(in) })
 		c.ByteSweep([]byte(seed), true, func(in []byte) { exec(in); c.Count("byte-sweep", 1) })
